@@ -423,21 +423,39 @@ Definition rle_image_decode (enc : list (list nat)) : list nat := concat (map df
 
 Definition comp := list Z.
 
-Record geom := { gx : nat; gy : nat; gnc : nat; gcs : nat; gswap : bool; gnt : Z }.
+Record geom := { gx : nat; gy : nat; gnc : nat; gcs : nat; gswap : bool; gnt : Z; gsub : Z }.
 
 (** component size from the DFKNTsize table regenerated for C06; standard (big-endian) multi-byte types are
     byte-swapped on disk, DFNT_LITEND ones are not *)
 Fixpoint zassoc (k : Z) (l : list (Z * Z)) : option Z :=
   match l with [] => None | (a, b) :: r => if Z.eqb a k then Some b else zassoc k r end.
-Definition nt_size (nt : Z) : option nat := option_map Z.to_nat (zassoc nt DFKNTsize_switch).
+Definition nt_size (nt : Z) : option nat := option_map Z.to_nat (zassoc (dfkntsize_selector nt) DFKNTsize_switch).
+Definition nt_swapped (nt : Z) (cs : nat) : bool := Z.eqb (Z.land nt (DFNT_LITEND + DFNT_NATIVE)) 0 && (1 <? cs).
+(** GRcreate: file_nt_subclass starts as DFNTF_HDFDEFAULT whatever the number type *)
 Definition mk_geom (x y nc : nat) (nt : Z) : option geom :=
   match nt_size nt with
   | Some cs => if (1 <=? x) && (1 <=? y) && (1 <=? nc) && (1 <=? cs) then
-                 Some {| gx := x; gy := y; gnc := nc; gcs := cs;
-                         gswap := Z.eqb (Z.land nt (DFNT_LITEND + DFNT_NATIVE)) 0 && (1 <? cs); gnt := nt |}
+                 Some {| gx := x; gy := y; gnc := nc; gcs := cs; gswap := nt_swapped nt cs; gnt := nt;
+                         gsub := DFNTF_HDFDEFAULT |}
                else None
   | None => None
   end.
+
+(** The number type across GRend / reopen: GRIupdatemeta writes the DFTAG_NT record (bytes regenerated from
+    mfgr.c: nt_rec_type, nt_rec_class), GRIget_image_list reads it back: type byte, and the subclass byte decides
+    the flavour (DFNTF_PC: little-endian; DFNTF_HDFDEFAULT or an unknown value: the plain type). *)
+Definition nt_read_back (rec_type rec_class : Z) : Z * Z :=
+  if Z.eqb rec_class DFNTF_PC then (Z.lor rec_type DFNT_LITEND, rec_class) else (rec_type, rec_class).
+Definition reopen_nt (nt fsub : Z) : Z * Z := nt_read_back (nt_rec_type nt fsub) (nt_rec_class nt fsub).
+Definition geom_reopen (g : geom) : geom :=
+  let '(nt', sub') := reopen_nt (gnt g) (gsub g) in
+  {| gx := gx g; gy := gy g; gnc := gnc g; gcs := gcs g; gswap := nt_swapped nt' (gcs g); gnt := nt'; gsub := sub' |}.
+
+(** the number types of the property's domain: the ten standard types and their little-endian flavours *)
+Definition gr_base_types : list Z :=
+  [DFNT_UCHAR8; DFNT_CHAR8; DFNT_INT8; DFNT_UINT8; DFNT_INT16; DFNT_UINT16; DFNT_INT32; DFNT_UINT32;
+   DFNT_FLOAT32; DFNT_FLOAT64].
+Definition gr_number_types : list Z := gr_base_types ++ map (fun t => Z.lor t DFNT_LITEND) gr_base_types.
 
 Definition group (cs n : nat) (bytes : list Z) : list comp :=
   map (fun k => map (fun b => nth (k * cs + b) bytes 0%Z) (seq 0 cs)) (seq 0 n).
@@ -552,7 +570,7 @@ Definition s_reqlutil (s : simg) (il : ilace) : simg :=
 (** GRend + reopen: data and palette persist; the stored interlace is always pixel, the requested
     read interlaces are per-session. *)
 Definition m_reopen (m : mimg) : mimg :=
-  {| m_g := m_g m; m_wil := ILpixel; m_ril := ILpixel; m_fill := m_fill m; m_elt := m_elt m; m_store := m_store m;
+  {| m_g := geom_reopen (m_g m); m_wil := ILpixel; m_ril := ILpixel; m_fill := m_fill m; m_elt := m_elt m; m_store := m_store m;
      m_lut := m_lut m; m_lil := ILpixel |}.
 Definition s_reopen (s : simg) : simg :=
   {| s_g := s_g s; s_wil := ILpixel; s_ril := ILpixel; s_fill := s_fill s; s_data := s_data s;
@@ -606,7 +624,7 @@ Definition v_spec (inil outil : ilace) (X Y nc cs : nat) (bytes : list Z) : list
 (** Old-style rasters written by DFR8addimage (1 component, optionally RLE) / DF24addimage (3 components,
     pixel interlace) and then accessed through GR: uint8 components (GRgetiminfo reports DFNT_UCHAR8). *)
 Definition legacy_geom (w h nc : nat) : geom :=
-  {| gx := w; gy := h; gnc := nc; gcs := 1; gswap := false; gnt := DFNT_UCHAR8 |}.
+  {| gx := w; gy := h; gnc := nc; gcs := 1; gswap := false; gnt := DFNT_UCHAR8; gsub := DFNTC_BYTE |}.
 
 Definition m_legacy (w h nc : nat) (rle : bool) (bytes : list Z) : mimg :=
   let stored := if rle then map Z.of_nat (rle_image_decode (rle_image_encode w h (map Z.to_nat bytes))) else bytes in
